@@ -1,6 +1,8 @@
 """Protocol commands about the Metamath front end, on the real code."""
 from __future__ import annotations
 
+import re
+
 from vlib import sx
 
 
@@ -149,10 +151,14 @@ def stmt_sx(s):
         return '(a %s (%s))' % (hx(s.label), ' '.join(term_sx(t) for t in s.terms))
     if isinstance(s, A.ProvableStatement):
         assert s.proof is not None
-        return '(p %s (%s) (%s))' % (hx(s.label), ' '.join(term_sx(t) for t in s.terms), ' '.join(hx(x) for x in s.proof.split()))
+        return '(p %s (%s) (%s))' % (hx(s.label), ' '.join(term_sx(t) for t in s.terms), ' '.join(hx(x) for x in _IGNORED.split(s.proof) if x))
     if isinstance(s, A.Block):
         return '(block %s)' % ' '.join(stmt_sx(x) for x in s.statements) if s.statements else '(block)'
     raise ValueError(type(s))
+
+
+# the proof string is ' '.join(tokens); a token may contain whitespace that the lexer does not ignore (U+00A0, U+000B, ...): not str.split()
+_IGNORED = re.compile(r'[ \n\t\f\r]+')
 
 
 def db_sx(db):
